@@ -29,8 +29,13 @@ def nt_any(st, sc):
     return st['commit'] + st['rollback'] > 0
 
 
+# design-level TLC jobs (spec/FBRefMC.tla): quick = exhaustive small configurations, thorough adds the
+# nested configuration (exhaustive, ~14 min) and the larger one under a time bound
+MC_THOROUGH = [('MC_nest.cfg', 1500), ('MC_tiny.cfg', 900)]
+
 PROPS = {
     'C01': {
+        'mc_quick': ['MC_quick.cfg'], 'mc_thorough': MC_THOROUGH,
         'title': 'Cache transparency',
         'units': [('general', 1500, 30000), ('rebuild', 500, 10000), ('foreign', 500, 8000),
                   ('clean', 300, 4000), ('regress', 0, 0)],
@@ -43,6 +48,7 @@ PROPS = {
                 'that had a record (so both directions of the reuse rule were exercised)',
     },
     'C02': {
+        'mc_quick': ['MC_quick_clean.cfg'], 'mc_thorough': MC_THOROUGH,
         'title': 'Rollback',
         'units': [('crash', 2000, 40000), ('forcrash', 800, 15000), ('foreign', 400, 6000),
                   ('regress', 0, 0)],
@@ -54,6 +60,7 @@ PROPS = {
                 'prefix; non-trivial = at least one rolled-back build and one committed build in the trace',
     },
     'C03': {
+        'mc_quick': ['MC_quick_clean.cfg'], 'mc_thorough': [('MC_tiny.cfg', 600)],
         'title': 'Foreign files',
         'units': [('foreign', 1500, 30000), ('forcrash', 1500, 30000), ('clean', 400, 8000),
                   ('crash', 300, 5000)],
@@ -64,6 +71,7 @@ PROPS = {
                 'build/clean calls judged against a tree that contains foreign files',
     },
     'C04': {
+        'mc_quick': ['MC_quick.cfg'], 'mc_thorough': MC_THOROUGH,
         'title': 'Virtual view',
         'units': [('probe', 700, 12000), ('general', 500, 8000), ('bfcontract', 300, 5000), ('regress', 0, 0)],
         'owned': {'AnswerMatches'},
@@ -72,6 +80,7 @@ PROPS = {
                 'non-trivial = at least 10 judged answers in the trace',
     },
     'C05': {
+        'mc_quick': ['MC_quick.cfg'], 'mc_thorough': MC_THOROUGH,
         'title': 'Cache effectiveness',
         'units': [('rebuild', 2000, 40000), ('general', 700, 10000), ('cmp', 300, 6000), ('regress', 0, 0)],
         'owned': {'ExecOnlyIfJustified', 'OutputsNotRewritten', 'PersistedEqualsReturned'},
@@ -80,6 +89,7 @@ PROPS = {
                 'non-trivial = at least one call for which the spec computed MustHit and the code reused it',
     },
     'C06': {
+        'mc_quick': ['MC_quick_ver.cfg'], 'mc_thorough': [('MC_tiny.cfg', 900)],
         'title': 'Versions',
         'units': [('versions', 2500, 40000)],
         'owned': {'ExecOnlyIfJustified', 'ReuseOnlyIfValid', 'ReturnMatches', 'PersistedEqualsReturned',
@@ -89,6 +99,7 @@ PROPS = {
                 'non-trivial = the trace has both a reuse and a re-execution of a recorded call',
     },
     'C08': {
+        'mc_quick': ['MC_quick_nest.cfg'], 'mc_thorough': [('MC_nest.cfg', 1500)],
         'title': 'At most one execution per key',
         'units': [('dup', 4000, 50000), ('general', 500, 8000)],
         'owned': {'DuplicateRejected', 'SetupErrClass', 'SetupFailExpected', 'NoSpuriousException',
@@ -101,6 +112,7 @@ PROPS = {
                 'rebuilds; non-trivial = at least one rejected duplicate (setup failure) in the trace',
     },
     'C11': {
+        'mc_quick': ['MC_quick.cfg'], 'sim': None,
         'title': 'No aliasing',
         'units': [('mutate', 4000, 50000), ('regress', 0, 0)],
         'owned': {'PersistedEqualsReturned', 'ExecOnlyIfJustified', 'ReuseOnlyIfValid', 'ReturnMatches',
@@ -113,6 +125,7 @@ PROPS = {
                 'from a record after mutations happened',
     },
     'C14': {
+        'mc_quick': ['MC_quick.cfg'], 'sim': None,
         'title': 'Internal OS errors',
         'fault_units': (500, 6000, 4, 0),      # base histories quick/thorough, fault points per history (0 = all)
         'units': [],
@@ -125,6 +138,7 @@ PROPS = {
                 'injected',
     },
     'C16': {
+        'mc_quick': ['MC_quick.cfg'], 'sim': None,
         'title': 'Cache persistence',
         'fault_units': (400, 5000, 0, 0),
         'fault_profile': 'persist',
@@ -143,6 +157,7 @@ PROPS = {
                 'served from the cache, or a cache-write fault was injected',
     },
     'C15': {
+        'mc_quick': ['MC_quick_clean.cfg'], 'sim': None,
         'title': 'Refused calls',
         'units': [('refuse', 4000, 60000)],
         'owned': {'RefusalNoEffect', 'RefusalExpected', 'RefusedCallRanUserCode', 'TempDirRemoved',
@@ -156,6 +171,7 @@ PROPS = {
                 'temp dir left, no user code run)',
     },
     'C10': {
+        'mc_quick': ['MC_quick.cfg'], 'mc_thorough': [('MC_nest.cfg', 1500)],
         'title': 'build_file contract',
         'units': [('bfcontract', 2000, 30000), ('probe', 300, 5000), ('regress', 0, 0)],
         'owned': {'TargetFileAfterOk', 'TargetAbsentAfterFail', 'OutcomeMatches', 'PathNormalised',
@@ -168,6 +184,7 @@ PROPS = {
                 'calls; non-trivial = a setup failure or at least three executed calls',
     },
     'C12': {
+        'mc_quick': ['MC_quick_clean.cfg'], 'mc_thorough': [('MC_tiny.cfg', 900)],
         'title': 'clean',
         'units': [('clean', 2000, 30000), ('rebuildclean', 2500, 40000), ('foreign', 300, 5000)],
         'owned': {'CleanExact', 'CleanNoCacheNoEffect', 'ForeignUntouched', 'NoSpuriousException',
@@ -177,6 +194,7 @@ PROPS = {
                 'previous clean, no cache); non-trivial = at least one clean of a valid cache',
     },
     'C13': {
+        'mc_quick': ['MC_quick_hash.cfg', 'MC_quick.cfg'], 'sim': ('MC_sim_hash.cfg', 100, 1500, 60), 'mc_thorough': [('MC_tiny.cfg', 900)],
         'title': 'Comparison modes',
         'units': [('cmp', 2000, 30000), ('cmpback', 3000, 40000)],
         'owned': {'ExecOnlyIfJustified', 'ReuseOnlyIfValid', 'OutputsNotRewritten'},
